@@ -3,7 +3,7 @@
 # Confirms, in a scratch worktree outside /repo and /verif: patch applies, demo fails with it and passes without it, (optionally) the test suite still passes.
 ID=$1; SRC=$2; TESTS=${3:-}
 DST=/verif/seeded/$ID; mkdir -p $DST
-cp $SRC/patch.diff $SRC/demo.py $SRC/meta.json $DST/ 2>/dev/null
+cp -n $SRC/patch.diff $SRC/demo.py $SRC/meta.json $DST/ 2>/dev/null
 W=$(mktemp -d /tmp/seedchk.XXXXXX); rmdir $W
 git -C /repo worktree add --detach -q $W HEAD || exit 2
 trap "git -C /repo worktree remove --force $W 2>/dev/null; git -C /repo worktree prune" EXIT
